@@ -353,7 +353,7 @@ class SecondQuantizedMolecule(Molecule):
         """
 
         if self.uhf:
-            return get_fermion_operator(self._get_molecular_hamiltonian_uhf())
+            return get_fermion_operator(self._get_molecular_hamiltonian_uhf(mo_coeff))
         core_constant, one_body_integrals, two_body_integrals = self.get_active_space_integrals(mo_coeff)
 
         one_body_coefficients, two_body_coefficients = spinorb_from_spatial(one_body_integrals, two_body_integrals)
@@ -574,18 +574,21 @@ class SecondQuantizedMolecule(Molecule):
 
         return core_constant, one_body_integrals_new, two_body_integrals_new
 
-    def _get_molecular_hamiltonian_uhf(self):
+    def _get_molecular_hamiltonian_uhf(self, mo_coeff=None):
         """Output arrays of the second quantized Hamiltonian coefficients.
         Note:
             The indexing convention used is that even indices correspond to
             spin-up (alpha) modes and odd indices correspond to spin-down
             (beta) modes.
 
+        Args:
+            mo_coeff (List[array]): The molecular orbital coefficients [alpha, beta] to use to generate the integrals.
+
         Returns:
             InteractionOperator: The molecular hamiltonian
         """
 
-        constant, one_body_integrals, two_body_integrals = self.get_active_space_integrals()
+        constant, one_body_integrals, two_body_integrals = self.get_active_space_integrals(mo_coeff)
 
         # Lets find the dimensions
         n_orb_a = one_body_integrals[0].shape[0]
